@@ -327,6 +327,8 @@ pub fn c20(cx: &Cx) -> i32 {
     crate::props_tp::ctor_kind_rule(cx, &mut rep, &["Clone", "Default", "BinaryOp", "UnaryOp"]);
     // an attribute the expansion consumed but left on the item is expanded again: duplicate impls (E0119) in generated code (the C14 rule)
     rep.import(&crate::props_entry::c14_report(cx), &["ES-strip-coverage", "DM-strip-set"]);
+    // a bound(...) stop that leaks from one field to the next leaves later fields without the bound their code needs (the C04 rule)
+    rep.import(&crate::props_bounds::c04_report(cx), &["ES-bounds-scope"]);
     crate::misc::span_hygiene_rule(cx, &mut rep, &[]);
     // a used field type that mentions a parameter must be bounded by the trait, else the generated impl does not type-check
     // although derive_ex reported nothing (the C03 rules, as a necessary condition)
